@@ -6,7 +6,10 @@ FLAVOURS = {
     "asan": dict(cxx="clang++",
                  flags="-O1 -g -fopenmp -fsanitize=address,undefined -fno-sanitize-recover=undefined "
                        "-fsanitize=fuzzer-no-link -DGMGPOLAR_VERIF",
-                 env={"ASAN_OPTIONS": "detect_leaks=0:abort_on_error=1:allocator_may_return_null=1",
+                 # malloc_context_size: with the default of 30 frames every allocation made under rapidcheck's deep, varying call
+                 # chains is a new entry of ASan's stack depot, which never shrinks (30 KB per case: a thorough worker reached
+                 # 4 GB and was killed by the kernel); three frames keep a worker at ~200 MB and detect exactly the same errors
+                 env={"ASAN_OPTIONS": "detect_leaks=0:abort_on_error=1:allocator_may_return_null=1:malloc_context_size=3:quarantine_size_mb=64",
                       "UBSAN_OPTIONS": "print_stacktrace=1:halt_on_error=1"}),
     # clang + ThreadSanitizer, OpenMP happens-before through Archer
     "tsan": dict(cxx="clang++", flags="-O1 -g -fopenmp -fsanitize=thread -DGMGPOLAR_VERIF",
